@@ -32,9 +32,19 @@ RadialOK(t) == \A i \in DOMAIN t.radial :
 (* a probe whose bounds cannot contain the surface: field on the same side of the isovalue at lo, mid and hi *)
 NoCrossing(p) == (p.flo > Scale /\ p.fmid > Scale /\ p.fhi > Scale) \/ (p.flo < Scale /\ p.fmid < Scale /\ p.fhi < Scale)
 
+(* the interior atoms form one molecule: every atom within 1.7 A of the rest (positions are multiples of 81 units = 0.005 A).
+   Scattered atoms are not a molecule: the radial search from their centroid may legitimately find no single surface. *)
+NearAtoms(a, b) == LET d == [c \in 1..3 |-> (a.p[c] - b.p[c]) \div 81] IN d[1] * d[1] + d[2] * d[2] + d[3] * d[3] <= 340 * 340
+RECURSIVE GrowMol(_, _)
+GrowMol(atoms, seen) ==
+  LET nxt == {i \in DOMAIN atoms : i \notin seen /\ \E j \in seen : NearAtoms(atoms[i], atoms[j])}
+  IN IF nxt = {} THEN seen ELSE GrowMol(atoms, seen \cup nxt)
+OneMolecule(atoms) == Len(atoms) >= 1 /\ (\A i \in DOMAIN atoms : \A c \in 1..3 : atoms[i].p[c] % 81 = 0) /\ GrowMol(atoms, {1}) = DOMAIN atoms
+
 Verdict(t) ==
   LET bad == {k \in 2..Len(t.poses) : PoseVerdict(t, k) # "ok"} IN
   IF ~(t.lmax \in 1..30 /\ Len(t.poses) >= 1 /\ t.poses[1].word = <<>>) THEN "OOD shape" ELSE
+  IF ~OneMolecule(t.base.inner) THEN "OOD not-one-molecule" ELSE
   IF t.poses[1].exc # "" THEN "REJECT Raised:" \o t.kind ELSE
   IF ~(\A i \in DOMAIN t.poses[1].d : AbsV(t.poses[1].d[i]) <= Scale) \/ t.poses[1].d = <<>> THEN "OOD scaling" ELSE
   IF bad # {} THEN PoseVerdict(t, CHOOSE k \in bad : \A j \in bad : k <= j) ELSE
